@@ -242,6 +242,12 @@ def larger_allocations(chunk, replay=None):
                 rng.shuffle(spec)           # the order of the cells in the document must not matter
             fixed_idx = sorted(rng.sample(range(len(spec)), rng.choice([0, 0, 1, 2]) if len(spec) > 2 else 0))
             t = rng.choice([0.0, 0.1, 0.25, 0.3, 0.5, 0.6, 0.75, 0.9, 1.0])
+            if rng.random() < 0.3:      # a threshold one unit in the last place below / above a ratio of the allocation: the comparison is exact
+                import math             # (after the open seed r8-C12-1: a tolerance in must_be_refined and none in refine)
+                rs = [v for _, al, _ in spec for v in al.values() if 0 < v < 1]
+                if rs:
+                    r0 = rng.choice(rs)
+                    t = rng.choice([math.nextafter(r0, 0.0), math.nextafter(r0, 1.0), r0 * (1 - 3e-10), r0 * (1 + 3e-10)])
             lv = rng.randint(1, 3)
         Rectangle.undefine_epsilon()
         try:
